@@ -1,3 +1,92 @@
-From ST Require Import Base.Outcome Mem.Heap Mem.Buffer Mem.BufferRun.
-Theorem placeholder : True. Proof. exact I. Qed.
-Print Assumptions placeholder.
+(* Properties/C05.v — C05: buffers keep size, content, terminator and exclusive ownership over
+   any history.  Statements only; proofs live in Mem/*.v.  L is the small-buffer limit; the four
+   concrete limits come from Gen/Consts.v (regenerated from st_config.h.in / st_charbuffer.h).
+
+   Reading guide:
+     Inv L st            every live buffer: short => data() is its own array, NUL at [size];
+                         long => data() is a live heap block of size+1 cells, NUL at [size], referenced
+                         by no other object; every live block is owned by a live buffer (no leak);
+     Rel st s            the value each live buffer holds is the value the SPEC store `s` gives it
+                         (`Unspecified` for a moved-from object: any valid value);
+     wf_history s ops    the history is a well-formed program (constructors on dead slots, members on
+                         live ones);
+     run_bop / run_history  the transcription of include/st_charbuffer.h (Mem/Buffer.v).            *)
+From Coq Require Import NArith List Lia.
+From ST Require Import Base.Outcome Mem.Heap Mem.Buffer Mem.BufferRun Mem.BufferInv Mem.BufferSteps
+  Mem.BufferHistory Gen.Consts.
+Import ListNotations.
+
+(* the empty store satisfies the invariant *)
+Theorem c05_inv_init : forall L, Inv L store0 /\ Rel store0 sstore0.
+Proof. intros L. exact (conj (inv_init L) rel_init). Qed.
+Print Assumptions c05_inv_init.
+
+(* one operation: returns normally (no double free, no free of in-object storage, no out-of-bounds
+   access, no use of released storage: any of these would be a Fault), re-establishes the invariant,
+   and changes the abstract values exactly as the value-semantics spec says *)
+Theorem c05_step : forall L, 1 <= L -> forall st s op,
+  Inv L st -> Rel st s -> wf_bop st op ->
+  exists st', run_bop L op st = (Ok tt, st') /\ Inv L st' /\ Rel st' (spec_bop s op).
+Proof. exact step_ok. Qed.
+Print Assumptions c05_step.
+
+(* every finite history from the empty store *)
+Theorem c05_all_histories : forall L, 1 <= L -> forall ops,
+  wf_history sstore0 ops ->
+  exists st', run_ops L ops store0 = (Ok tt, st') /\ Inv L st' /\ Rel st' (fold_left spec_bop ops sstore0).
+Proof. exact reachable_ok. Qed.
+Print Assumptions c05_all_histories.
+
+(* what any observer sees of a live buffer in a reachable state: size, the elements of the last
+   value given to it, a NUL after the last element, and storage of the right class *)
+Theorem c05_observe : forall L, 1 <= L -> forall st o r,
+  Inv L st -> objs st o = Some r ->
+  observe o st = (Ok (mkobs (contents st r) (m_size r) true (if Nat.ltb (m_size r) L then LocOwn else LocHeap)), st).
+Proof. exact observe_ok. Qed.
+Print Assumptions c05_observe.
+
+(* nothing is shared between objects *)
+Theorem c05_exclusive : forall L st pool, Inv L st -> shares st pool = false.
+Proof. exact no_sharing. Qed.
+Print Assumptions c05_exclusive.
+
+(* end of scope: destroying the live objects (any state reachable as above) releases every block *)
+Theorem c05_end_of_scope : forall L, 1 <= L -> forall st pool,
+  Inv L st -> (forall o, pool <= o -> objs st o = None) -> leaked_after_scope L pool st = Ok 0.
+Proof. exact end_of_scope. Qed.
+Print Assumptions c05_end_of_scope.
+
+(* the function the correspondence check executes stays within what the spec allows, step by step:
+   result Ok, no sharing, and per slot the spec value (or, for a moved-from object, some valid value) *)
+Theorem c05_model_within_spec : forall L, 1 <= L -> forall ops st s pool,
+  Inv L st -> Rel st s -> wf_history s ops ->
+  Forall2 (step_allowed L pool) (spec_history ops s) (fst (run_history L ops pool st)) /\
+  exists st', snd (run_history L ops pool st) = st' /\ Inv L st' /\ Rel st' (fold_left spec_bop ops s).
+Proof. exact run_history_allowed. Qed.
+Print Assumptions c05_model_within_spec.
+
+(* a moved-from object is a valid, exclusively-owning object: it is live and satisfies the per-object
+   clause of the invariant, so every member theorem above applies to it *)
+Theorem c05_moved_from_valid : forall L, 1 <= L -> forall st s o src,
+  Inv L st -> Rel st s -> objs st o <> None -> objs st src <> None ->
+  exists st', assign_move L o src st = (Ok tt, st') /\ Inv L st' /\
+              exists r, objs st' src = Some r /\ obj_ok L st' src r.
+Proof. exact moved_from_valid. Qed.
+Print Assumptions c05_moved_from_valid.
+
+(* the four element types of this platform: limits harvested from the headers are >= 1 *)
+Theorem c05_instantiation :
+  (1 <= N.to_nat local_length_char /\ 1 <= N.to_nat local_length_wchar /\
+   1 <= N.to_nat local_length_char16 /\ 1 <= N.to_nat local_length_char32)%nat /\
+  local_length_formula_recognised = true.
+Proof. vm_compute. repeat split; apply le_S_n; repeat constructor. Qed.
+Print Assumptions c05_instantiation.
+
+(* non-vacuity: a concrete well-formed history mixing short and long values, moves in both
+   directions and self-assignment; its hypotheses hold and the model computes the spec values *)
+Example c05_nonvacuous :
+  let ops := [BNew 0 [97;98;99]%N; BFill 1 20 120%N; BMasg 0 1; BCopy 2 0; BAsg 1 2; BMasg 1 1;
+              BWrite 2 19 33%N; BDel 0; BMove 0 2; BClear 1] in
+  wf_history sstore0 ops /\
+  fst (run_ops 16 ops store0) = Ok tt.
+Proof. vm_compute. repeat split; try discriminate; reflexivity. Qed.
